@@ -6,6 +6,7 @@ package main
 
 import (
 	"bytes"
+	"fmt"
 	"context"
 	"crypto/sha256"
 	"encoding/hex"
@@ -82,14 +83,15 @@ type Solver struct {
 	TimeoutS  int
 	Seed      int
 	QuickS    int // first attempt with the primary solver only
-	mu        sync.Mutex
+	NoRace    bool // stage 1 only (used for vacuity covers, where unknown is acceptable)
+	mu        *sync.Mutex
 	ByBackend map[string]int
 	SecBy     map[string]float64
 }
 
 func NewSolver(dir string, timeoutS, seed int) *Solver {
 	os.MkdirAll(dir, 0o755)
-	return &Solver{Dir: dir, TimeoutS: timeoutS, Seed: seed, QuickS: 2, ByBackend: map[string]int{}, SecBy: map[string]float64{}}
+	return &Solver{Dir: dir, TimeoutS: timeoutS, Seed: seed, QuickS: 2, ByBackend: map[string]int{}, SecBy: map[string]float64{}, mu: &sync.Mutex{}}
 }
 
 func hashScript(s string) string {
@@ -100,7 +102,7 @@ func hashScript(s string) string {
 // Solve decides one script.  wantModel: append (get-model).
 func (sv *Solver) Solve(script string) SolveResult {
 	h := hashScript(script)
-	file := filepath.Join(sv.Dir, h+".smt2")
+	file := filepath.Join(sv.Dir, fmt.Sprintf("%s-%d.smt2", h, sv.Seed))
 	full := script + "(get-model)\n"
 	if err := os.WriteFile(file, []byte(full), 0o644); err != nil {
 		return SolveResult{Answer: "error"}
@@ -113,6 +115,11 @@ func (sv *Solver) Solve(script string) SolveResult {
 	sv.note("z3-new", el, ans == "unsat" || ans == "sat")
 	if ans == "unsat" || ans == "sat" {
 		res.Answer, res.Solver, res.Seconds, res.Model = ans, "z3-new", el, model
+		return res
+	}
+	if sv.NoRace {
+		res.Answer = ans
+		res.Seconds = el
 		return res
 	}
 	// stage 2: race
